@@ -104,14 +104,37 @@ where
                 xs.push(f64::INFINITY);
                 xs.sort_by(|a, b| a.partial_cmp(b).unwrap());
                 let agree = catch_unwind(AssertUnwindSafe(|| {
+                    let nan_eq = |a: &Vec<u64>, b: &Vec<u64>| {
+                        a.len() == b.len() && a.iter().zip(b).all(|(x, y)| x == y || (f64::from_bits(*x).is_nan() && f64::from_bits(*y).is_nan()))
+                    };
+                    // ascending sweep: all three ways
                     let direct: Vec<u64> = xs.iter().map(|x| pw.evaluate(*x).to_bits()).collect();
                     let mut ev = PiecewiseEvaluator::new(&pw.segments);
                     let via_ev: Vec<u64> = xs.iter().map(|x| ev.evaluate(*x).to_bits()).collect();
                     let via_v: Vec<u64> = pw.evaluate_v(xs.iter().cloned()).map(|y| y.to_bits()).collect();
-                    let nan_eq = |a: &Vec<u64>, b: &Vec<u64>| {
-                        a.len() == b.len() && a.iter().zip(b).all(|(x, y)| x == y || (f64::from_bits(*x).is_nan() && f64::from_bits(*y).is_nan()))
-                    };
-                    nan_eq(&direct, &via_ev) && nan_eq(&direct, &via_v)
+                    // zig-zag history with NaN queries: evaluator against direct evaluation
+                    let mut zig: Vec<f64> = vec![];
+                    let (mut lo, mut hi) = (0usize, xs.len());
+                    while lo < hi {
+                        hi -= 1;
+                        zig.push(xs[hi]);
+                        if lo < hi {
+                            zig.push(xs[lo]);
+                            lo += 1;
+                        }
+                        if zig.len() % 5 == 0 {
+                            zig.push(f64::NAN);
+                        }
+                    }
+                    let mut ev2 = PiecewiseEvaluator::new(&pw.segments);
+                    let zig_ev: Vec<u64> = zig.iter().map(|x| ev2.evaluate(*x).to_bits()).collect();
+                    let zig_direct: Vec<u64> = zig.iter().map(|x| pw.evaluate(*x).to_bits()).collect();
+                    // a NaN argument: all three choose the same (last) segment
+                    let nan_direct = vec![pw.evaluate(f64::NAN).to_bits()];
+                    let nan_v: Vec<u64> = pw.evaluate_v(vec![f64::NAN]).map(|y| y.to_bits()).collect();
+                    let last = vec![pw.segments.last().unwrap().poly.evaluate(f64::NAN).to_bits()];
+                    nan_eq(&direct, &via_ev) && nan_eq(&direct, &via_v) && nan_eq(&zig_direct, &zig_ev)
+                        && nan_eq(&nan_direct, &nan_v) && nan_eq(&nan_direct, &last)
                 }))
                 .unwrap_or(false);
                 (show_pw(&pw_from(&pw)), if agree { "1".into() } else { "0".into() })
